@@ -35,12 +35,67 @@ SEEDS = [
 ]
 
 
+# valid documents that reuse each other's fragment / variable / operation names with different bodies and types: executed on ONE
+# engine in every order (pairs, triples), each must still be accepted — validation must not remember earlier documents
+COLLIDING = [
+    "query Q($k: Int!) { ...L } fragment L on Query { need(x: $k) }",
+    "query Q($k: String) { ...L } fragment L on Query { a { echo(s: $k) } }",
+    "query Q($k: Tag) { ...L num } fragment L on Query { hello(t: $k) }",
+    "query Q($k: [Int!]) { ...L } fragment L on Query { lst(xs: $k) ...M } fragment M on Query { num }",
+    "query Q($k: Boolean!) { ...M } fragment M on Query { num @skip(if: $k) color }",
+    "query Q { ...L } fragment L on Query { ...M } fragment M on Query { color }",
+    "query Q($k: Color) { ...M ...L } fragment M on Query { hello(e: $k) } fragment L on Query { num }",
+    "query R($k: Int) { node { ...L } } fragment L on Node { id ... on A { echo(x: $k) } }",
+    "query R($k: P) { ...L } fragment L on Query { hello(p: $k) }",
+    "mutation Q($k: Int) { ...L } fragment L on Mutation { inc(by: $k) }",
+]
+
+
 def shards(tier, seed):
     n = SLICES[tier]
-    return [(si, k, n, tier) for si in range(len(SEEDS)) for k in range(n)]
+    return [(si, k, n, tier) for si in range(len(SEEDS)) for k in range(n)] + [("collisions", i, tier) for i in range(len(COLLIDING))]
+
+
+def _collisions(item, out):
+    import itertools
+    _, first, tier = item
+    schema = seeds.K
+    docs = [doc.roundtrip(doc.parse(t)) for t in COLLIDING]
+    for t, d in docs:
+        if V.validate(schema, d):
+            out["machinery"].append("colliding document is not valid: %s %s" % (t, sorted(V.validate(schema, d))))
+            return
+    others = [i for i in range(len(COLLIDING)) if i != first]
+    seqs = [(first, j) for j in others] + [(first, j, k2) for j in others for k2 in range(len(COLLIDING)) if k2 != j]
+    for seq in seqs:
+        engine = harness.build_engine(schema)  # a fresh engine per history
+        for pos, i in enumerate(seq):
+            text, located = docs[i]
+            op = located.operations[0]
+            variables = next(iter(explore.variable_assignments(schema, op)))
+            scn = Scenario(root=build_root(schema, schema.root(op.kind), 1))
+            resp = harness.execute(engine, text, scn, variables=variables or None)
+            out["counts"]["evaluations"] += 1
+            refused = [e for e in (resp.get("errors") or []) if "rule" in (e.get("extensions") or {}) or e.get("message") == "Server encountered an error."]
+            if refused:
+                out["violations"].append({
+                    "signature": "valid-document-refused-after-other-documents|%s" % (refused[0].get("extensions") or {}).get("rule"),
+                    "summary": "history %r: document #%d %s refused: %r" % ([COLLIDING[j] for j in seq[:pos + 1]], pos, text, refused[:1]),
+                    "replay": {"history": [COLLIDING[j] for j in seq[:pos + 1]]}})
+                break
+        out["counts"]["states"] += 1
+        out["sets"]["state_hashes"].add(explore.h64("collision%r" % (seq,)))
+        out["sets"]["nontrivial_hashes"].add(explore.h64("collision%r" % (seq,)))
+    out["samples"].append({"colliding_history": [COLLIDING[j] for j in seqs[-1]]})
 
 
 def run_shard(item):
+    if item[0] == "collisions":
+        out = {"counts": {"evaluations": 0, "states": 0, "transitions": 0, "discarded_invalid": 0},
+               "tables": {"rewrite_kinds": {}, "rewrite_kinds_discarded": {}}, "sets": {"state_hashes": set(), "nontrivial_hashes": set()},
+               "samples": [], "violations": [], "machinery": []}
+        _collisions(item, out)
+        return _fin(out)
     si, k, n, tier = item
     schema = seeds.K
     engine = explore.engine_for("K", schema)
@@ -141,6 +196,14 @@ def replay(rec):
     r = rec["replay"]
     schema = seeds.K
     engine = harness.build_engine(schema)
+    if "history" in r:
+        for text in r["history"]:
+            located = doc.parse(text)
+            op = located.operations[0]
+            variables = next(iter(explore.variable_assignments(schema, op)))
+            resp = harness.execute(engine, text, Scenario(root=build_root(schema, schema.root(op.kind), 1)), variables=variables or None)
+            bad = [e for e in (resp.get("errors") or []) if "rule" in (e.get("extensions") or {}) or e.get("message") == "Server encountered an error."]
+        return [{"summary": "last document refused: %r" % bad[:1]}] if bad else []
     located = doc.parse(r["text"])
     op = X.get_operation(located, r["op"])
     scn = Scenario(root=build_root(schema, schema.root(op.kind), 1))
